@@ -176,6 +176,8 @@ class Check:
         the others are judged by their own property's check); panics and hangs always count"""
         P = s.program()
         cfg = {'sample_inputs': True, 'env': env or {}}
+        if env and env.get('collect_locks'):
+            cfg['collect_locks'] = True
         if step_budget:
             cfg['step_budget'] = step_budget
         t = time.time()
@@ -347,6 +349,8 @@ class Check:
         }
         if extra_cov:
             cov.update(extra_cov)
+        if getattr(s, 'extra_cov', None):
+            cov.update(s.extra_cov)
         ev = {'property_id': s.prop, 'tier': s.tier, 'seed': s.seed, 'level': s.level, 'coverage': cov,
               'assumptions': s.assumptions, 'wall_s': round(wall, 2), 'violations': len(s.violations)}
         os.makedirs(EVIDENCE, exist_ok=True)
